@@ -19,6 +19,7 @@
 #include <iostream>      // for cerr
 #include "dfs.h"         // for safe_unsigned_multiply
 #include "exceptions.h"  // for FileIOError
+#include "verif_trace.h"
 
 namespace DFS
 {
@@ -142,11 +143,15 @@ namespace DFS
       if (0 == take_)
 	{
 	  // Device is unformatted.
+	  VERIF_EVENT("{\"e\":\"vread\",\"skip\":%lu,\"take\":%lu,\"leave\":%lu,\"total\":%lu,\"sector\":%lu,\"pos\":-1}",
+		      (unsigned long)initial_skip_, (unsigned long)take_, (unsigned long)leave_, (unsigned long)total_, sector);
 	  return std::nullopt;
 	}
 
       if (sector >= total_)
 	{
+	  VERIF_EVENT("{\"e\":\"vread\",\"skip\":%lu,\"take\":%lu,\"leave\":%lu,\"total\":%lu,\"sector\":%lu,\"pos\":-1}",
+		      (unsigned long)initial_skip_, (unsigned long)take_, (unsigned long)leave_, (unsigned long)total_, sector);
 	  return std::nullopt;
 	}
 
@@ -197,6 +202,8 @@ namespace DFS
 	initial_skip_ +
 	safe_unsigned_multiply(sector / take_, static_cast<unsigned long>(take_) + leave_) +
 	sector % take_;
+      VERIF_EVENT("{\"e\":\"vread\",\"skip\":%lu,\"take\":%lu,\"leave\":%lu,\"total\":%lu,\"sector\":%lu,\"pos\":%lu}",
+		  (unsigned long)initial_skip_, (unsigned long)take_, (unsigned long)leave_, (unsigned long)total_, sector, pos);
       return media_.read_block(pos);
     }
 
